@@ -8,6 +8,10 @@
  C. exec : every transition {none,P,U,p,u,PU,pu} x 1-2 targets on a generated mini-tree and every shipped exec
            directive: one rule per value of each target's @{exec_path} (values from the reference parser's own
            expansion), requested mode, every target contributes
+ E. composition: every ordered selection of <= 3 (thorough 4) distinct lines out of {stack of a profile carrying
+           dbus/only/exclude directives, stack of a plain profile, stack of a profile that stacks, dbus, exec, inline
+           only, inline exclude, plain rule} containing a stack: nothing survives, and the output equals the output for
+           the host whose stack directives were expanded by hand (differential oracle)
  D. stack: generated targets (with/without exec rules, rules that merely contain "x,", a sub-profile, a directive
            inside) x {X, non-X} x 1-2 targets x hosts with 1-2 stack lines, and the shipped stack hosts of the
            prepared full-policy trees, against a line-based reference model (targets in the order given, minus the
@@ -416,6 +420,94 @@ def stack_part(rn, tier, ev, fnd):
     ev.sample({'stack_case': 'host with `#aa:stack st-exec st-plain`', 'model': stack_model('', ['st-exec'], False, rn.read)[:6]})
 
 
+# ---------------------------------------------------------------------------------------------- E
+
+COMP_TARGETS = {
+    # a stacked profile that itself carries directives, and one that stacks another (bounded chain)
+    'st-dir': ['include <abstractions/base>', '', '@{exec_path} mr,', '', '#aa:dbus own bus=system name=org.example.Child', '', '/etc/st-dir r,', '/etc/st-dir.only r, #aa:only arch',
+               '/etc/st-dir.excl r, #aa:exclude arch'],
+    'st-chain': ['include <abstractions/base>', '', '@{exec_path} mr,', '', '/etc/st-chain r,', '', '#aa:stack st-dir'],
+}
+COMP_LINES = {
+    'stack-dir': '  #aa:stack st-dir',
+    'stack-plain': '  #aa:stack st-plain',
+    'stack-chain': '  #aa:stack st-chain',
+    'dbus': '  #aa:dbus own bus=session name=org.example.Host',
+    'exec': '  #aa:exec gen-t1',
+    'only': '  /etc/host.only r, #aa:only arch',
+    'exclude': '  /etc/host.excl r, #aa:exclude arch',
+    'rule': '  /etc/host.plain r,',
+}
+
+
+def comp_host(seq):
+    t = 'abi <abi/4.0>,\n\ninclude <tunables/global>\n\n@{exec_path} = @{bin}/host\nprofile host @{exec_path} {\n  include <abstractions/base>\n\n  @{exec_path} mr,\n\n'
+    for tag in seq:
+        t += COMP_LINES[tag] + '\n\n'
+    return t + '  include if exists <local/host>\n}\n'
+
+
+def inline_stacks(text, read, depth=0):
+    """the host with every stack directive replaced by what the documented model says it adds (directives the
+    stacked text carries stay alive), repeated until no stack directive is left"""
+    if depth > 4:
+        raise RuntimeError('stack chain too deep for the harness')
+    lines = text.split('\n')
+    stacks = [(i, l) for i, l in enumerate(lines) if re.match(r'^\s*#aa:stack\s', l)]
+    if not stacks:
+        return text
+    stacked = []
+    for i, l in stacks:
+        a = l.split('#aa:stack', 1)[1].split()
+        x = bool(a and a[0] == 'X')
+        stacked += ['  ' + m for m in stack_model(text, [t for t in a if t != 'X'], x, read)]
+    keep = [l for i, l in enumerate(lines) if i not in {i for i, _ in stacks}]
+    k = max(i for i, l in enumerate(keep) if l.rstrip() == '}')
+    j = k
+    while j > 0 and keep[j - 1].strip().startswith('include if exists'):     # the run directly above the brace
+        j -= 1
+    return inline_stacks('\n'.join(keep[:j] + stacked + [''] + keep[j:]), read, depth + 1)
+
+
+def composition_part(rn, tier, ev, fnd):
+    """directives next to one another and directives brought in by a stacked profile: nothing may survive, and
+    the result must equal the result for the host in which the stack directives were expanded by hand"""
+    for n, body in COMP_TARGETS.items():
+        rn.add(n, target_text(n, body))
+    for n, body in TARGETS.items():
+        rn.add(n, target_text(n, body))
+    tags = list(COMP_LINES)
+    L = 4 if tier == 'thorough' else 3
+    seqs = [list(s) for n in range(1, L + 1) for s in itertools.permutations(tags, n) if any(t.startswith('stack') for t in s)]
+    hosts = [comp_host(s) for s in seqs]
+    inlined = [inline_stacks(h, rn.read) for h in hosts]
+    res = rn.run(hosts + inlined)
+    real, ref = res[:len(hosts)], res[len(hosts):]
+    for s, h, r, q in zip(seqs, hosts, real, ref):
+        where = 'host with directive lines %s' % s
+        shape = 'stack-then-%s' % ('other' if not s[-1].startswith('stack') else 'nothing')
+        if r.get('err') or r.get('panic'):
+            fnd.report('composition-fails ' + shape, '%s fails: %s' % (where, r.get('err') or r.get('panic')), {'text': h}); continue
+        if q.get('err') or q.get('panic'):
+            print('HARNESS NOTE: hand-expanded host rejected for %s: %s' % (s, q.get('err') or q.get('panic'))); continue
+        out = r['out']
+        left = [l.strip() for l in out.split('\n') if '#aa:' in l]
+        if left:
+            fnd.report('composition-directive-survives ' + shape, '%s: %s survive(s) in the output' % (where, left[:3]), {'text': h, 'out': out}); continue
+        got = [l.strip() for l in out.split('\n') if l.strip()]
+        want = [l.strip() for l in q['out'].split('\n') if l.strip()]
+        if 'stack-chain' in s and 'stack-dir' in s:
+            # the same profile reaches the host twice (directly and through the chain): whether its rules are added
+            # once or twice is the same policy -- compared as sets there
+            got, want = sorted(set(got)), sorted(set(want))
+        if got != want:
+            import difflib
+            d = [l for l in difflib.unified_diff(want, got, 'hand-expanded host', 'real output', lineterm='', n=0) if not l.startswith(('---', '+++', '@@'))]
+            fnd.report('composition-differs ' + shape, '%s: output differs from the output for the hand-expanded host: %s' % (where, d[:6]), {'text': h, 'out': out, 'want': q['out']})
+    ev.add(transitions=2 * len(seqs), composition_hosts=len(seqs), composition_max_directive_lines=L)
+    ev.sample({'composition_case': seqs[-1], 'oracle': 'no #aa: left; equal to directive.Run on the host with stack directives expanded by hand'})
+
+
 def run(tier):
     ev = C.Evidence(PROP, tier); fnd = C.Findings(PROP)
     ex = leftovers(tier, ev, fnd)
@@ -429,6 +521,7 @@ def run(tier):
         dbus_part(rn, base, tier, ev, fnd)
         exec_part(rn, base, tier, ev, fnd)
         stack_part(rn, tier, ev, fnd)
+        composition_part(rn, tier, ev, fnd)
         rn2 = Runner(ex2, cfgx.Cfg('whonix', 3, '3.0', 'none', True))
         stack_part(rn2, tier, ev, fnd)
     finally:
